@@ -73,6 +73,7 @@ package jsonclient
 
 //@ func (*JSONClient).PostAndParseWithRetry
 //@ props C13
+//@ arith int
 //@ stable c
 //@ site PostAndParse#1 as pp
 //@ site set#1 as s1
@@ -88,7 +89,8 @@ package jsonclient
 //@ ensures [non-retryable-status-returned-at-once-with-status-and-body] typeof(result2) == RspError && pp.called && pp.res2 == nil && !wb.called ==> as(result2, RspError).StatusCode == status && as(result2, RspError).Body == pp.res1 && status != 200 && status != 408 && status != 429 && status != 503
 //@ at s1 assert [transport-or-parse-error-backs-off-without-override] pp.res2 != nil && s1.arg0 == nil
 //@ at s2 assert [only-429-and-503-use-server-pacing] pp.res2 == nil && (status == 429 || status == 503)
-//@ at s2 assert [retry-after-seconds-honoured-exactly] at.called && at.res1 == nil ==> s2.arg0 != nil && wide(*s2.arg0) == wide(at.res0) * 1000000000
+//@ at s2 assert [retry-after-seconds-honoured-exactly] at.called && at.res1 == nil ==> s2.arg0 != nil && *s2.arg0 == (at.res0 > 9223372036 ? 9223372036 : (at.res0 < -9223372036 ? -9223372036 : at.res0)) * 1000000000
+//@ note Retry-After beyond 9223372036 s (292 years) cannot be represented as a time.Duration and is saturated
 //@ at s2 assert [retry-after-date-honoured] at.called && at.res1 != nil && tp.called && tp.res1 == nil ==> s2.arg0 != nil && *s2.arg0 == tu.res
 //@ at s2 assert [no-retry-after-no-override] hg.res == "" || (at.res1 != nil && tp.res1 != nil) ==> s2.arg0 == nil
 //@ at wb assert [retry-only-after-retryable-outcomes] pp.res2 != nil || status == 408 || status == 429 || status == 503
